@@ -187,7 +187,7 @@ def check_crystal(part, spec):
             except Exception as e:
                 part.fail("molecule-setup:raise", "symmetry_unique_molecules raised %r [%s]" % (e, label), dict(base_case, radii=[radius]))
                 umols = []
-            for mode in ("environments", "environment", "group"):
+            for mode in ("environments", "environment", "environment-threshold", "group"):
                 part.ev()
                 part.tr()
                 case = dict(base_case, query="molecule_" + mode, radius=radius, radii=[radius])
@@ -200,6 +200,15 @@ def check_crystal(part, spec):
                         # a unit-cell molecule translated far outside the reference cell
                         m = c.unit_cell_molecules()[-1].translated(np.array([2, -3, 1]) @ M)
                         res = [c.molecule_environment(m, radius=radius)]
+                        centres = [np.asarray(m.positions)]
+                    elif mode == "environment-threshold":
+                        # the documented `threshold`: a centre molecule whose coordinates are off the crystal's sites by up to
+                        # 0.02 A (rounded file, optimised geometry) is still recognised as the centre with threshold=0.05
+                        m = c.unit_cell_molecules()[0].translated(np.array([-1, 2, 0]) @ M)
+                        k = np.arange(len(m))[:, None] * np.array([1.0, 2.0, 3.0]) + np.array([0.5, 1.5, 2.5])
+                        m.positions = np.asarray(m.positions) + 0.02 * np.sin(7.0 * k)
+                        thr = 0.05
+                        res = [c.molecule_environment(m, radius=radius, threshold=thr)]
                         centres = [np.asarray(m.positions)]
                     else:
                         m0 = umols[0]
@@ -217,7 +226,10 @@ def check_crystal(part, spec):
                     continue
                 for (m, els, pos), cen in zip(res, centres):
                     req, allowed, info = ref_ball(M, ucf, cen, radius)
-                    selfk = {k for k in allowed if info[k][1] < 1e-3}
+                    selfk = {k for k in allowed if info[k][1] < (thr if mode == "environment-threshold" else 1e-3)}
+                    if mode == "environment-threshold" and len(selfk) != len(cen):
+                        part.skip("threshold-ambiguous")   # other sites within the threshold of the centre: exclusion not defined
+                        continue
                     if len(selfk) != len(cen):
                         part.fail(key + ":harness", "reference found %d of %d centre atoms in the lattice" % (len(selfk), len(cen)), case)
                         continue
